@@ -8,9 +8,8 @@ RULE = ("correspondence: SkToPk / Sign / Verify / PopProve / PopVerify / KeyGen 
         "one per bit-length band, random 255-bit; rejected keys 0,r,r+1,-1,2^255,non-int; messages empty, 1 byte, SHA-256 block "
         "boundaries 55/56/63/64/65, binary, multi-KiB; three suites; predicates: Verify(SkToPk(sk), m, Sign(sk, m)) and "
         "PopVerify(pk, PopProve(sk)) on the real code, ValidationError for rejected keys, KeyGen output in [1, r-1]")
-HYPOTHESES = ["HB1_bilinear_blsOpt (pairing bilinearity; no divisor theory in Mathlib)", "HB2_card_blsE1/E2 (group orders; no Hasse bound in Mathlib)"]
-NOT_YET_PROVED = ["sign_verify / popProve_popVerify for ALL keys and messages: conditional on HB1, HB2 (sampled on model and implementation); "
-                  "the unconditional theorems cover key rejection, KeyGen range, totality and decision logic"]
+HYPOTHESES = ["PairingFacts' (C01_ProtoHB2): HB1 = additivity of the reduced pairing in each argument on r-torsion points (needs divisors / Weil reciprocity; not in Mathlib); ND = non-degeneracy against the generator (r.Q = 0 -> e(Q, g1) = 1 -> Q = 0); HB1' = the model's Miller loop + final exponentiation compute e. HB2 (group orders) and HT6 (hash_to_G2 lands in the subgroup, never raises) are PROVED and no longer assumed"]
+NOT_YET_PROVED = ["the three fields of PairingFacts' themselves (sampled on model and implementation by the round-trip predicates and by C05)"]
 ASSUMPTIONS = []
 nontrivial = nontrivial_default
 CHUNK = 4
